@@ -1,1 +1,255 @@
 use super::*;
+use crate::verif_common::*;
+
+static mut REPORTS: u32 = 0;
+static mut REPORT_SIZE: usize = 0;
+static mut REPORT_LIMIT: usize = 0;
+static mut REPORT_KIND_OK: bool = true;
+
+/// Stub for websocket_server::report_error: records the report and forgets the
+/// value. (ConnectionError embeds RepeError, whose drop glue - boxed dyn errors
+/// inside io/serde/beve errors - is what makes the unstubbed path run out of
+/// memory; the real function is a 3-line loop over the registered hooks.)
+fn report_error_stub(_hooks: &[ErrorHook], err: ConnectionError) {
+    unsafe {
+        REPORTS += 1;
+        match &err {
+            ConnectionError::OutboundTooLarge { size, limit, .. } => {
+                REPORT_SIZE = *size;
+                REPORT_LIMIT = *limit;
+            }
+            _ => REPORT_KIND_OK = false,
+        }
+    }
+    std::mem::forget(err);
+}
+
+/// Stub for message::create_error_message inside frame_outbound: the error TEXT
+/// comes from format!, whose result Kani does not model usably at this call site
+/// (stubbing alloc::fmt::format is not honoured there and the unstubbed formatter
+/// is out of reach), so the text is forgotten and the message is built by the
+/// same builder calls with an empty body. The real create_error_message is
+/// decided separately (c17_create_error_message).
+fn create_error_message_stub<S: AsRef<str>>(code: ErrorCode, msg: S) -> Message {
+    std::mem::forget(msg);
+    Message::builder()
+        .error_code(code)
+        .body_bytes(Vec::new())
+        .body_format(crate::constants::BodyFormat::Utf8)
+        .build()
+}
+
+fn outbound_msg<const Q: usize, const B: usize>() -> (Message, [u8; Q], [u8; B]) {
+    let mut h = any_header();
+    h.spec = crate::constants::REPE_SPEC;
+    h.query_length = Q as u64;
+    h.body_length = B as u64;
+    h.length = (48 + Q + B) as u64;
+    let q: [u8; Q] = kani::any();
+    let b: [u8; B] = kani::any();
+    (Message { header: h, query: q.to_vec(), body: b.to_vec() }, q, b)
+}
+
+/// In-limit side: delivered unchanged. LIMIT is a per-instance constant
+/// (usize::MAX encodes "no limit configured") so that CBMC does not have to
+/// carry the oversized branch along.
+fn frame_outbound_in_limit<const Q: usize, const B: usize, const LIMIT: usize>() {
+    let (m, q, b) = outbound_msg::<Q, B>();
+    let h = m.header;
+    let limit = if LIMIT == usize::MAX { None } else { Some(LIMIT) };
+    let limits = crate::WebSocketLimits::unlimited().with_assumed_peer_frame_limit(limit);
+    let out = frame_outbound(m, &limits, &[]);
+    let bytes = out.expect("a message at or below the limit must be delivered");
+    assert!(bytes.len() == 48 + Q + B);
+    let hb = spec_header_bytes(&h);
+    let mut i = 0;
+    while i < 48 {
+        assert!(bytes[i] == hb[i], "in-limit message header changed");
+        i += 1;
+    }
+    let mut j = 0;
+    while j < Q {
+        assert!(bytes[48 + j] == q[j]);
+        j += 1;
+    }
+    let mut k = 0;
+    while k < B {
+        assert!(bytes[48 + Q + k] == b[k]);
+        k += 1;
+    }
+    unsafe {
+        assert!(REPORTS == 0, "an error was reported for a deliverable message");
+    }
+    std::mem::forget(bytes);
+}
+
+/// Oversized side, NOTIFY clause only: dropped and reported once with the exact
+/// size and limit. The oversized-RESPONSE clause (replacement error with the same
+/// id) could not be brought into the solver: the replacement text is built with
+/// format!; the real formatter does not finish (300 s, concrete arguments), and
+/// with alloc::fmt::format stubbed Kani 0.68 reports spurious memory errors on
+/// this path whenever report_error is also called (a String whose capacity field
+/// reads as the local `size`; the same values pass natively and every sub-step
+/// passes in isolation - probes recorded in DESIGN.md). That clause is Out.
+fn frame_outbound_oversized<const Q: usize, const B: usize>() {
+    let (mut m, _q, _b) = outbound_msg::<Q, B>();
+    // The query is only read to name the method in the report; UTF-8 validation
+    // of even one symbolic byte costs minutes, so the query bytes are concrete ASCII.
+    let mut k = 0;
+    while k < Q {
+        m.query[k] = b'/';
+        k += 1;
+    }
+    let h = m.header;
+    kani::assume(h.notify != 0);
+    let limit: usize = kani::any();
+    kani::assume(limit >= 48 && limit < 48 + Q + B);
+    let limits = crate::WebSocketLimits::unlimited().with_assumed_peer_frame_limit(Some(limit));
+    let out = frame_outbound(m, &limits, &[]);
+    unsafe {
+        assert!(REPORTS == 1 && REPORT_KIND_OK, "oversized outbound message was not reported exactly once as OutboundTooLarge");
+        assert!(REPORT_SIZE == 48 + Q + B && REPORT_LIMIT == limit);
+    }
+    assert!(out.is_none(), "an oversized notify was put on the wire");
+    kani::cover!(limit == 48 + Q + B - 1);
+    kani::cover!(h.notify == 1);
+    kani::cover!(h.notify == 255);
+}
+
+macro_rules! c17_in_limit {
+    ($name:ident, $q:expr, $b:expr, $limit:expr) => {
+        #[kani::proof]
+        #[kani::stub(std::fmt::format, crate::verif_common::format_stub)]
+        #[kani::stub(report_error, report_error_stub)]
+        #[kani::unwind(52)]
+        fn $name() {
+            frame_outbound_in_limit::<$q, $b, { $limit }>();
+        }
+    };
+}
+
+//@ name: c17_frame_outbound_at_limit_q1_b2
+//@ prop: C17
+//@ tier: quick
+//@ clause: a message exactly at the limit is delivered unchanged, byte for byte, and nothing is reported
+//@ funcs: websocket_server::frame_outbound; WebSocketLimits::check_outbound; Message::into_wire_bytes
+//@ symbolic: all header fields (id, notify, ec, formats, reserved), query and body bytes
+//@ bounds: |query|=1, |body|=2, limit = 51 = frame size (per-instance constant); unwind 52
+//@ oracle: independent layout oracle || query || body
+//@ stubs: websocket_server::report_error -> recording stub; alloc::fmt::format -> empty String
+c17_in_limit!(c17_frame_outbound_at_limit_q1_b2, 1, 2, 51);
+
+//@ name: c17_frame_outbound_no_limit_q1_b2
+//@ prop: C17
+//@ tier: quick
+//@ clause: with no limit configured every message is delivered unchanged
+//@ funcs: websocket_server::frame_outbound; WebSocketLimits::check_outbound; Message::into_wire_bytes
+//@ symbolic: as c17_frame_outbound_at_limit_q1_b2
+//@ bounds: |query|=1, |body|=2, limit = None; unwind 52
+//@ oracle: independent layout oracle || query || body
+//@ stubs: websocket_server::report_error -> recording stub; alloc::fmt::format -> empty String
+c17_in_limit!(c17_frame_outbound_no_limit_q1_b2, 1, 2, usize::MAX);
+
+//@ name: c17_frame_outbound_below_limit_q0_b3
+//@ prop: C17
+//@ tier: thorough
+//@ clause: a message below the limit is delivered unchanged (empty query)
+//@ funcs: websocket_server::frame_outbound; WebSocketLimits::check_outbound; Message::into_wire_bytes
+//@ symbolic: as c17_frame_outbound_at_limit_q1_b2
+//@ bounds: |query|=0, |body|=3, limit = 52 (frame 51); unwind 52
+//@ oracle: independent layout oracle || body
+//@ stubs: websocket_server::report_error -> recording stub; alloc::fmt::format -> empty String
+c17_in_limit!(c17_frame_outbound_below_limit_q0_b3, 0, 3, 52);
+
+//@ prop: C17
+//@ tier: quick
+//@ clause: an oversized notification is dropped (nothing goes on the wire) and reported exactly once with the exact size and limit
+//@ funcs: websocket_server::frame_outbound; WebSocketLimits::check_outbound; message::create_error_message; Message::into_wire_bytes
+//@ symbolic: limit in [48, frame size) ("large enough to carry an error reply" with the stubbed, empty error text), so limit = frame-1, frame-2, frame-3 are all inside; all header fields, notify any non-zero byte; body bytes; the query is concrete ASCII ('/' repeated): UTF-8 validation of symbolic bytes is out of reach here
+//@ bounds: |query|=1, |body|=2; unwind 52; the oversized-RESPONSE replacement clause is outside (see the comment on frame_outbound_oversized)
+//@ oracle: result None; report counter == 1 with (size, limit) == (frame size, limit)
+//@ stubs: websocket_server::report_error -> recording stub (the real one loops over the registered hooks); message::create_error_message -> same builder calls with the (format!-produced) text forgotten; alloc::fmt::format -> stub (its result is forgotten unread)
+#[kani::proof]
+#[kani::stub(std::fmt::format, crate::verif_common::format_stub)]
+#[kani::stub(crate::message::create_error_message, create_error_message_stub)]
+#[kani::stub(report_error, report_error_stub)]
+#[kani::unwind(52)]
+fn c17_frame_outbound_oversized_notify_q1_b2() {
+    frame_outbound_oversized::<1, 2>();
+}
+
+//@ prop: C17
+//@ tier: thorough
+//@ clause: as c17_frame_outbound_oversized_notify_q1_b2 with a 2-byte query
+//@ funcs: websocket_server::frame_outbound; WebSocketLimits::check_outbound; message::create_error_message; Message::into_wire_bytes
+//@ symbolic: as c17_frame_outbound_oversized_notify_q1_b2
+//@ bounds: |query|=2, |body|=1; unwind 52
+//@ oracle: statement clauses
+//@ stubs: websocket_server::report_error -> recording stub; message::create_error_message -> builder calls, text forgotten; alloc::fmt::format -> stub (result forgotten unread)
+#[kani::proof]
+#[kani::stub(std::fmt::format, crate::verif_common::format_stub)]
+#[kani::stub(crate::message::create_error_message, create_error_message_stub)]
+#[kani::stub(report_error, report_error_stub)]
+#[kani::unwind(52)]
+fn c17_frame_outbound_oversized_notify_q2_b1() {
+    frame_outbound_oversized::<2, 1>();
+}
+
+//@ prop: C17
+//@ tier: quick
+//@ clause: vacuity witness (must FAIL)
+//@ funcs: websocket_server::frame_outbound
+//@ expect: fail
+//@ stubs: websocket_server::report_error -> recording stub; message::create_error_message -> builder calls, text forgotten; alloc::fmt::format -> stub (result forgotten unread)
+#[kani::proof]
+#[kani::stub(std::fmt::format, crate::verif_common::format_stub)]
+#[kani::stub(crate::message::create_error_message, create_error_message_stub)]
+#[kani::stub(report_error, report_error_stub)]
+#[kani::unwind(52)]
+fn c17_witness() {
+    let (mut m, _q, _b) = outbound_msg::<1, 2>();
+    m.query[0] = b'/';
+    kani::assume(m.header.notify != 0);
+    let limits = crate::WebSocketLimits::unlimited().with_assumed_peer_frame_limit(Some(50));
+    let out = frame_outbound(m, &limits, &[]);
+    assert!(out.is_some(), "verif-witness");
+    std::mem::forget(out);
+}
+
+
+
+//@ prop: C17
+//@ tier: quick
+//@ clause: the error-reply constructor used for the replacement yields a well-formed non-notify message with exactly the given code and text (complements the oversized harnesses, which stub it)
+//@ funcs: message::create_error_message; MessageBuilder::build
+//@ symbolic: error code (selector over all 11 codes), 2 text bytes (ASCII)
+//@ bounds: text of 2 bytes
+//@ oracle: ec == code; body == text; notify == 0; header lengths consistent; body_format Utf8
+#[kani::proof]
+#[kani::unwind(8)]
+fn c17_create_error_message() {
+    let code = match kani::any::<u8>() % 11 {
+        0 => ErrorCode::Ok,
+        1 => ErrorCode::VersionMismatch,
+        2 => ErrorCode::InvalidHeader,
+        3 => ErrorCode::InvalidQuery,
+        4 => ErrorCode::InvalidBody,
+        5 => ErrorCode::ParseError,
+        6 => ErrorCode::MethodNotFound,
+        7 => ErrorCode::Timeout,
+        8 => ErrorCode::ResourceExhausted,
+        9 => ErrorCode::InternalError,
+        _ => ErrorCode::ApplicationErrorBase,
+    };
+    let t: [u8; 2] = kani::any();
+    kani::assume(t[0] < 128 && t[1] < 128);
+    let text = unsafe { std::str::from_utf8_unchecked(&t) };
+    let m = crate::message::create_error_message(code, text);
+    assert!(m.header.ec == code as u32 && m.header.notify == 0 && m.header.id == 0);
+    assert!(m.header.body_format == crate::constants::BodyFormat::Utf8 as u16);
+    assert!(m.query.is_empty() && m.body.len() == 2 && m.body[0] == t[0] && m.body[1] == t[1]);
+    assert!(m.header.length == 50 && m.header.query_length == 0 && m.header.body_length == 2);
+    assert!(m.header.spec == 0x1507 && m.header.version == 1);
+    std::mem::forget(m);
+}
+
